@@ -22,35 +22,65 @@ theorem usle_totals (p : UsleFine.Params ℝ) (i : UsleFine.In ℝ) :
   split_ifs <;> exact ⟨rfl, rfl, rfl, rfl⟩
 
 /-- **USLE: delivered load = generated load × hillslope delivery ratio** (percent), fine and coarse; the only divisor
-is the positive time step. -/
-theorem usle_delivered (p : UsleFine.Params ℝ) (_hts : 0 < p.timeStepInSeconds) (i : UsleFine.In ℝ) :
+is the positive time step (`(load·ratio)/Δt = (load/Δt)·ratio` needs `Δt ≠ 0` to be a statement about quotients). -/
+theorem usle_delivered (p : UsleFine.Params ℝ) (hts : 0 < p.timeStepInSeconds) (i : UsleFine.In ℝ) :
     (UsleFine.step p i).quickLoadFine = (UsleFine.step p i).generatedLoadFine * (p.usleHSDRFine * (1 / 100)) ∧
     (UsleFine.step p i).quickLoadCoarse = (UsleFine.step p i).generatedLoadCoarse * (p.usleHSDRCoarse * (1 / 100)) := by
+  have _hne : p.timeStepInSeconds ≠ 0 := ne_of_gt hts   -- the divisor
   usle_unfold
   split_ifs
   · constructor <;> ring
   · c16lit
     constructor <;> ring
 
+/-- **USLE: the divisors of the maximum-concentration cap are positive** for `0 ≤ maxConc` on an event day (`0 < qf`):
+the flow in litres per day, and — whenever the cap is hit — the current fine sediment mass
+`fine·area·1e-4·1e3` by which the allowed mass is divided. (For `maxConc < 0` the cap can be hit with a zero current
+mass and the code divides by zero: excluded by hypothesis, see `usle_fine_fraction`.) -/
+theorem usle_cap_divisor_pos (p : UsleFine.Params ℝ) (qf fine : ℝ)
+    (hmax : 0 ≤ p.maxConc) (hq : 0 < qf) :
+    0 < UsleFine.litresPerDay qf ∧
+    ((fine * p.area * Units.squareMetresToHectares * Units.tonnesToKg * Units.kgToMilligram) / UsleFine.litresPerDay qf
+        > p.maxConc →
+      0 < fine * p.area * Units.squareMetresToHectares * Units.tonnesToKg) := by
+  simp only [usle_litresPerDay, squareMetresToHectares_eq, tonnesToKg_eq, kgToMilligram_eq, gt_iff_lt]
+  have hl : 0 < qf * 86400000 := by positivity
+  refine ⟨hl, fun h => ?_⟩
+  have hc : 0 < fine * p.area * (1 / 10000) * 1000 * 1000000 / (qf * 86400000) := lt_of_le_of_lt hmax h
+  have hn : 0 < fine * p.area * (1 / 10000) * 1000 * 1000000 := by
+    by_contra hh
+    exact absurd hc (not_lt.mpr (div_nonpos_of_nonpos_of_nonneg (not_lt.mp hh) (le_of_lt hl)))
+  linarith
+
 /-- **USLE: generated fine + coarse material is split by the fine fraction** `KLSC_Fine / KLSC` of the eroded soil:
-`generatedFine · KLSC = (generatedFine + generatedCoarse) · KLSC_Fine`, with or without the concentration cap. -/
-theorem usle_fine_fraction (p : UsleFine.Params ℝ) (i : UsleFine.In ℝ) :
+`generatedFine · KLSC = (generatedFine + generatedCoarse) · KLSC_Fine`, with or without the concentration cap, for a
+positive time step and `0 ≤ maxConc`. The hypotheses are exactly what makes every divisor on the path non-zero
+(`usle_cap_divisor_pos`: litres per day on an event day, the current fine mass where the cap is hit; the time step);
+without `0 ≤ maxConc` the cap branch can divide by a zero mass (ℝ would still satisfy the identity through `x/0 = 0`;
+float64 gives NaN). -/
+theorem usle_fine_fraction (p : UsleFine.Params ℝ) (i : UsleFine.In ℝ)
+    (hts : 0 < p.timeStepInSeconds) (hmax : 0 ≤ p.maxConc) :
     (UsleFine.step p i).generatedLoadFine * i.klsc =
       ((UsleFine.step p i).generatedLoadFine + (UsleFine.step p i).generatedLoadCoarse) * i.klscFine := by
+  have _hne : p.timeStepInSeconds ≠ 0 := ne_of_gt hts
   usle_unfold
   generalize UsleFine.rFactor p i.rain i.doy = r
-  split_ifs
-  · obtain ⟨adj, hadj, _⟩ := usle_adjustedRates p i.qf (r * i.klscFine) (r * i.klsc - r * i.klscFine)
+  split_ifs with hc
+  · have _hdiv := usle_cap_divisor_pos p i.qf (r * i.klscFine) hmax hc.1
+    obtain ⟨adj, hadj, _⟩ := usle_adjustedRates p i.qf (r * i.klscFine) (r * i.klsc - r * i.klscFine)
     simp only [hadj]; ring
   · ring
 
-/-- **USLE: zero driver ⇒ zero load.** Without quickflow, without erosive rainfall (`rain ≤ RainThreshold`) or with
-`KLSC = 0`, the quick loads and the generated loads are zero and the total fine load is the dry-weather load alone. -/
-theorem usle_zero_driver (p : UsleFine.Params ℝ) (i : UsleFine.In ℝ)
+/-- **USLE: zero driver ⇒ zero load**, for a positive time step. Without quickflow, without erosive rainfall
+(`rain ≤ RainThreshold`) or with `KLSC = 0`, the quick loads and the generated loads are zero and the total fine load
+is the dry-weather load alone. The coarse quick load and the generated loads are computed as `0 / Δt`: `0 < Δt` makes
+that a genuine zero (float64: `0/0 = NaN` for `Δt = 0`; `usle_zero_driver_dt0` states that case). -/
+theorem usle_zero_driver (p : UsleFine.Params ℝ) (i : UsleFine.In ℝ) (hts : 0 < p.timeStepInSeconds)
     (h : i.qf ≤ 0 ∨ ¬ p.rainThreshold < i.rain ∨ i.klsc = 0) :
     (UsleFine.step p i).quickLoadFine = 0 ∧ (UsleFine.step p i).quickLoadCoarse = 0 ∧
     (UsleFine.step p i).generatedLoadFine = 0 ∧ (UsleFine.step p i).generatedLoadCoarse = 0 ∧
     (UsleFine.step p i).totalFineLoad = (UsleFine.step p i).slowLoadFine ∧ (UsleFine.step p i).totalCoarseLoad = 0 := by
+  have _hne : p.timeStepInSeconds ≠ 0 := ne_of_gt hts
   have hr := usle_rFactor_no_rain p i.rain i.doy
   usle_unfold
   split_ifs with hc
@@ -61,6 +91,25 @@ theorem usle_zero_driver (p : UsleFine.Params ℝ) (i : UsleFine.In ℝ)
     · rw [h, mul_zero] at hc; exact absurd hc.2 (lt_irrefl (0:ℝ))
   · c16lit
     simp only [zero_div, zero_add, add_zero, and_self]
+
+/-- USLE, `Δt = 0` stated separately: on the no-event branch the fine quick load is the literal 0 and the other three
+are the quotient `0 / timeStepInSeconds` — all that exact arithmetic can say; for `Δt = 0` float64 gives NaN there. -/
+theorem usle_zero_driver_dt0 (p : UsleFine.Params ℝ) (i : UsleFine.In ℝ)
+    (h : i.qf ≤ 0 ∨ ¬ p.rainThreshold < i.rain ∨ i.klsc = 0) :
+    (UsleFine.step p i).quickLoadFine = 0 ∧
+    (UsleFine.step p i).quickLoadCoarse = 0 / p.timeStepInSeconds ∧
+    (UsleFine.step p i).generatedLoadFine = 0 / p.timeStepInSeconds ∧
+    (UsleFine.step p i).generatedLoadCoarse = 0 / p.timeStepInSeconds := by
+  have hr := usle_rFactor_no_rain p i.rain i.doy
+  usle_unfold
+  split_ifs with hc
+  · exfalso
+    rcases h with h | h | h
+    · exact absurd hc.1 (not_lt.mpr h)
+    · rw [hr h, zero_mul] at hc; exact absurd hc.2 (lt_irrefl (0:ℝ))
+    · rw [h, mul_zero] at hc; exact absurd hc.2 (lt_irrefl (0:ℝ))
+  · c16lit
+    exact ⟨trivial, trivial, trivial, trivial⟩
 
 /-- the slow (dry-weather) load is zero without baseflow -/
 theorem usle_zero_baseflow (p : UsleFine.Params ℝ) (i : UsleFine.In ℝ) (h : i.sf = 0) :
@@ -107,8 +156,9 @@ theorem usle_nonneg (p : UsleFine.Params ℝ) (i : UsleFine.In ℝ)
 /-! ### whole series -/
 
 /-- **USLE, whole series**: every timestep satisfies the total / delivered / fine-fraction identities and the
-zero-driver rule. -/
-theorem usle_spec (p : UsleFine.Params ℝ) (hts : 0 < p.timeStepInSeconds) (xs : List (UsleFine.In ℝ)) :
+zero-driver rule (positive time step, `0 ≤ maxConc`: see `usle_fine_fraction`). -/
+theorem usle_spec (p : UsleFine.Params ℝ) (hts : 0 < p.timeStepInSeconds) (hmax : 0 ≤ p.maxConc)
+    (xs : List (UsleFine.In ℝ)) :
     List.Forall₂ (fun (i : UsleFine.In ℝ) (o : UsleFine.Out ℝ) =>
         o.totalFineLoad = o.quickLoadFine + o.slowLoadFine ∧
         o.totalCoarseLoad = o.quickLoadCoarse + o.slowLoadCoarse ∧
@@ -124,8 +174,8 @@ theorem usle_spec (p : UsleFine.Params ℝ) (hts : 0 < p.timeStepInSeconds) (xs 
   intro i
   obtain ⟨a, b, _, c⟩ := usle_totals p i
   obtain ⟨d, e⟩ := usle_delivered p hts i
-  refine ⟨a, b, c, d, e, usle_fine_fraction p i, fun h => ?_⟩
-  obtain ⟨z1, z2, z3, z4, _⟩ := usle_zero_driver p i h
+  refine ⟨a, b, c, d, e, usle_fine_fraction p i hts hmax, fun h => ?_⟩
+  obtain ⟨z1, z2, z3, z4, _⟩ := usle_zero_driver p i hts h
   exact ⟨z1, z2, z3, z4⟩
 
 /-- **USLE, whole series**: non-negative loads for non-negative drivers and parameters. -/
@@ -146,10 +196,54 @@ theorem usle_series_nonneg (p : UsleFine.Params ℝ) (xs : List (UsleFine.In ℝ
 
 /-- a concrete event day (R is whatever the erosivity formula gives; take parameters with threshold 0 and rain 20):
 the zero-driver hypotheses fail, the identities still hold — and a dry day satisfies them with zero loads -/
-example (p : UsleFine.Params ℝ) (h : p.rainThreshold = 5) :
+example (p : UsleFine.Params ℝ) (hts : 0 < p.timeStepInSeconds) (h : p.rainThreshold = 5) :
     (UsleFine.step p ⟨1, 1, 2, 0.5, 0.1, 0, 100⟩).generatedLoadFine = 0 :=
-  (usle_zero_driver p ⟨1, 1, 2, 0.5, 0.1, 0, 100⟩ (Or.inr (Or.inl (by rw [h]; norm_num)))).2.2.1
+  (usle_zero_driver p ⟨1, 1, 2, 0.5, 0.1, 0, 100⟩ hts (Or.inr (Or.inl (by rw [h]; norm_num)))).2.2.1
 example : ∃ p : UsleFine.Params ℝ, 0 < p.timeStepInSeconds ∧ 0 ≤ p.area ∧ 0 ≤ p.maxConc ∧ 0 ≤ p.dwc :=
   ⟨⟨800, 1500, 5, 0.05, 1.5, 0.5, 1, 1, 1, 20, 0.3, 2, 40, 1e6, 500, 10, 5, 86400⟩, by norm_num, by norm_num, by norm_num, by norm_num⟩
+
+/-- erosivity for `η = 0`, `β = 1`: `R = α·rain` above the threshold -/
+noncomputable def usleP (maxConc : ℝ) : UsleFine.Params ℝ :=
+  ⟨800, 1500, 5, 2, 1, 0, 1, 1, 1, 20, 0.3, 2, 40, 1e6, maxConc, 10, 5, 86400⟩
+/-- one event day: quickflow 1 m³/s, rain 20 mm, KLSC 0.5 with 0.1 fine -/
+noncomputable def usleI : UsleFine.In ℝ := ⟨1, 1, 20, 0.5, 0.1, 0, 100⟩
+/-- the erosivity of that day is `2·(1 + 0·cos …)·20^1 = 40` -/
+theorem usle_example_R (m : ℝ) : UsleFine.rFactor (usleP m) usleI.rain usleI.doy = 40 := by
+  simp only [UsleFine.rFactor, gt_iff_lt, usleP, usleI, RealNum.pow_eq]
+  c16lit
+  norm_num
+
+/-- the day is an event (`0 < qf`, `0 < R·KLSC = 20`), whatever `maxConc` -/
+theorem usle_example_event (m : ℝ) :
+    0 < usleI.qf ∧ 0 < UsleFine.rFactor (usleP m) usleI.rain usleI.doy * usleI.klsc := by
+  rw [usle_example_R]; norm_num [usleI]
+/-- fine-sediment concentration of the day: 4 t/ha on 100 ha in 86.4 ML = 4629.6 mg/L: above `maxConc = 500` (cap
+branch), below `maxConc = 10000` (uncapped branch) -/
+theorem usle_example_conc (m : ℝ) :
+    (UsleFine.rFactor (usleP m) usleI.rain usleI.doy * usleI.klscFine) * (usleP m).area * Units.squareMetresToHectares *
+      Units.tonnesToKg * Units.kgToMilligram / UsleFine.litresPerDay usleI.qf = 125000 / 27 := by
+  rw [usle_example_R, usle_litresPerDay, squareMetresToHectares_eq, tonnesToKg_eq, kgToMilligram_eq]
+  norm_num [usleI, usleP]
+/-- `usle_nonneg` APPLIED on the event branch without cap (`maxConc = 10000 > 4629.6`) and with the cap hit
+(`maxConc = 500 < 4629.6`): all eight outputs are non-negative -/
+example (m : ℝ) (hm : m = 10000 ∨ m = 500) :
+    0 ≤ (UsleFine.step (usleP m) usleI).quickLoadFine ∧ 0 ≤ (UsleFine.step (usleP m) usleI).generatedLoadCoarse := by
+  have h := usle_nonneg (usleP m) usleI (by norm_num [usleP]) (by norm_num [usleP])
+    (by rcases hm with h | h <;> simp only [usleP, h] <;> norm_num) (by norm_num [usleP]) (by norm_num [usleP])
+    (by norm_num [usleP]) (by norm_num [usleI]) (by norm_num [usleI]) (by norm_num [usleI]) (by norm_num [usleI])
+  exact ⟨h.1, h.2.2.2.2.2.2.2⟩
+
+/-- the two branches really differ on that day: with the cap hit the generated fine load is the allowed mass
+`500 mg/L · 86.4e6 L / 1e6 / 86400 s = 0.5 kg/s`, without cap it is `4 t/ha · 100 ha · 1000 / 86400 s = 125/27 kg/s` -/
+example : (UsleFine.step (usleP 500) usleI).generatedLoadFine = 1 / 2 ∧
+    (UsleFine.step (usleP 10000) usleI).generatedLoadFine = 125 / 27 := by
+  have hev := usle_example_event 500
+  have hev' := usle_example_event 10000
+  have hR := usle_example_R 500
+  have hR' := usle_example_R 10000
+  usle_unfold
+  rw [if_pos hev, if_pos hev']
+  simp only [hR, hR', UsleFine.adjustedRates, usle_litresPerDay, squareMetresToHectares_eq, tonnesToKg_eq, kgToMilligram_eq, gt_iff_lt]
+  norm_num [usleI, usleP]
 
 end OW.Props.C16
